@@ -229,8 +229,10 @@ class Flow:
                 seq = rng.choice([5, 6, 100])
             elif needs_cltv and seq == 0xFFFFFFFF:
                 seq = 0xFFFFFFFE
+            if spec.get("seqs"):
+                seq = spec["seqs"][len(vin)]
             vin.append(TxIn(OutPoint(prev.id, vpos), b"", seq))
-        if needs_cltv and all(i.sequence == 0xFFFFFFFF for i in vin):
+        if needs_cltv and not spec.get("seqs") and all(i.sequence == 0xFFFFFFFF for i in vin):
             vin[0].sequence = 0xFFFFFFFE
         total = sum(o.value for o in pouts)
         nout = rng.randint(len(vin), len(vin) + 2) if spec.get("outs_ge_ins", True) else rng.randint(1, 3)
@@ -238,6 +240,8 @@ class Flow:
         vout = [TxOut(total // (nout + 2) + j, pay.script_pub_key(40 + j)) for j in range(nout)]
         lock = rng.choice([500, 600, 700_000]) if needs_cltv else rng.choice([0, 0, 499, 700_000])
         version = 2 if needs_csv else rng.choice([1, 2, 2, 3])
+        lock = spec.get("lock", lock)
+        version = spec.get("version", version)
         self.pouts = pouts
         tx = Tx(version, lock, vin, vout)
         psbt = Psbt.from_tx(tx)
@@ -261,6 +265,16 @@ class Flow:
                 pass
         if spec.get("v2"):
             psbt = psbt.to_v2()
+            # BIP370's lock-time sources: the fallback, and what single inputs require (a height, a time, or both)
+            if "fallback" in spec:
+                psbt.fallback_lock_time = spec["fallback"]
+            for i, lk in enumerate(spec.get("locks", [])):
+                if lk:
+                    if "h" in lk:
+                        psbt.inputs[i].required_height_lock_time = lk["h"]
+                    if "t" in lk:
+                        psbt.inputs[i].required_time_lock_time = lk["t"]
+            psbt.assert_valid()
         self.unsigned = psbt
         signed = psbt
         order = list(self.parties)
@@ -268,6 +282,8 @@ class Flow:
         for p in order:
             signed = request_signatures(p.signer, signed) if spec.get("request") else p.signer.sign_psbt(signed)
         self.signed = signed
+        if spec.get("stop") == "signed":
+            return
         self.final = finalize(signed, solver=solver if spec.get("solver", True) else None)
         self.tx = extract_tx(self.final)
 
@@ -638,7 +654,94 @@ def o_bip322_pof(w):
     return True, ""
 
 
-ORACLES = {"closure": o_closure, "tamper": o_tamper, "bms": o_bms, "bip322": o_bip322, "bip322_pof": o_bip322_pof}
+def o_locktime(w):
+    """the lock time the psbt determines (BIP370: fallback / required height / required time) is the lock time of the
+    signed, of the finalized psbt and of the extracted transaction, and that transaction is accepted"""
+    try:
+        flow = Flow(w)
+    except Exception as e:  # noqa: BLE001
+        return False, f"flow failed: {type(e).__name__}: {str(e)[:200]}"
+    want = flow.unsigned.lock_time
+    got = {"signed": flow.signed.lock_time, "final": flow.final.lock_time, "extracted": flow.tx.lock_time,
+           "final.tx": flow.final.tx.lock_time}
+    bad = {k: v for k, v in got.items() if v != want}
+    if bad:
+        return False, f"lock time {want} of the psbt (locks {w.get('locks')}, fallback {w.get('fallback')}) became {bad}"
+    if w.get("expect_lock") is not None and want != w["expect_lock"]:
+        return False, f"BIP370 lock time: {want}, expected {w['expect_lock']}"
+    for i in range(len(flow.tx.vin)):
+        if flow.tx.vin[i].sequence != flow.unsigned.tx.vin[i].sequence:
+            return False, f"sequence of input {i} changed on the way to the extracted transaction"
+    try:
+        verify_transaction(flow.pouts, flow.tx, EVERY)
+    except Exception as e:  # noqa: BLE001
+        return False, f"engine refuses the extracted transaction: {type(e).__name__}: {str(e)[:160]}"
+    return True, ""
+
+
+def timelock_probe(w):
+    """(finalized?, detail, engine verdict on the PERMISSIVE witness, verdict line for the model)
+
+    the satisfier decides with the transaction's real lock time / sequence / version whether a witness exists; the
+    permissive witness is what it writes when told the time locks are met -- same signatures (they are over the real
+    transaction) -- and the engine says whether that spend is valid in the real transaction"""
+    flow = Flow({**w, "stop": "signed"})
+    try:
+        final = finalize(flow.signed, solver=solver)
+        tx = extract_tx(final)
+        produced, why = True, ""
+    except Exception as e:  # noqa: BLE001
+        if common.err_class(e).startswith("foreign"):
+            raise
+        produced, why, tx = False, str(e)[:120], None
+    pin = flow.signed.inputs[0]
+    utx = flow.signed.tx
+    lock_ok = int(re.search(r"after\((\d+)\)", w["shapes"][0]).group(1)) if "after(" in w["shapes"][0] else 0
+    seq_ok = int(re.search(r"older\((\d+)\)", w["shapes"][0]).group(1)) if "older(" in w["shapes"][0] else 0xFFFFFFFE
+    ctx_ok = MS.SpendContext(locktime=lock_ok, sequence=seq_ok, version=2)
+    if pin.witness_script:
+        node = MS.from_script(pin.witness_script, MS.P2WSH, {})
+        stack = node.satisfy(dict(pin.partial_sigs), ctx_ok)
+        wit = [*stack, bytes(pin.witness_script)]
+    else:
+        (cb, (script, ver)), = pin.taproot_leaf_scripts.items()
+        lh = taproot.leaf_hash(ver, script)
+        sigs = {kd[:32]: sg for kd, sg in pin.taproot_script_spend_signatures.items() if kd[32:] == lh}
+        stack = MS.from_script(script, MS.TAPSCRIPT).satisfy(sigs, ctx_ok)
+        wit = [*stack, bytes(script), bytes(cb)]
+    t2 = copy.deepcopy(utx)
+    t2.vin[0].script_witness = Witness(wit)
+    verdict = engine_verdict(flow.pouts, t2, 0, EVERY).split(" ")[0]
+    line = f"verdict {EVERY.value} 0 {tok_tx(tx_dict(t2))} {outs_tok(flow.pouts)}"
+    if produced:
+        try:
+            verify_transaction(flow.pouts, tx, EVERY)
+            own = "ok"
+        except Exception as e:  # noqa: BLE001
+            own = f"rej ({str(e)[:80]})"
+    else:
+        own = None
+    return produced, why, verdict, line, own
+
+
+def o_timelock(w):
+    """a miniscript witness is produced exactly when the engine accepts the spend: never a witness the engine refuses
+    (a wrong "time lock met"), never a refusal of a spend the engine accepts"""
+    try:
+        produced, why, verdict, _line, own = timelock_probe(w)
+    except Exception as e:  # noqa: BLE001
+        return False, f"probe failed: {type(e).__name__}: {str(e)[:200]}"
+    tag = f"{w['shapes'][0]} version {w.get('version')} lock_time {w.get('lock')} sequence {hex(w['seqs'][0])}"
+    if produced and own != "ok":
+        return False, f"{tag}: finalize produced a witness the engine refuses: {own}"
+    if produced and verdict != "ok":
+        return False, f"{tag}: a witness was produced but the time-lock-met witness is refused by the engine"
+    if not produced and verdict == "ok":
+        return False, f"{tag}: no witness produced ({why}) though the engine accepts the spend"
+    return True, ""
+
+
+ORACLES = {"locktime": o_locktime, "timelock": o_timelock, "closure": o_closure, "tamper": o_tamper, "bms": o_bms, "bip322": o_bip322, "bip322_pof": o_bip322_pof}
 
 
 # ------------------------------------------------------------------ signature-level mutations of a finished input
@@ -834,6 +937,60 @@ def run(ctx):
     ctx.correspond("c10.verdict", EXE, verdict_cases, nontrivial=lambda ln, out: True)
     ctx.correspond("c10.tamper.verdict", EXE, tamper_verdict, nontrivial=lambda ln, out: True)
     ctx.correspond("c10.mutsig.verdict", EXE, mutsig, nontrivial=lambda ln, out: True)
+    # BIP370 lock-time sources of a v2 psbt, through sign / finalize / extract
+    H1, H2, T1, T2 = 650_000, 700_123, 1_600_000_000, 1_700_000_123
+    lock_specs = []
+    for shapes, locks, fallback, expect in [
+        (["wpkh(A)"], [None], 0, 0), (["wpkh(A)", "tr(A)"], [None, None], 777, 777),
+        (["wpkh(A)", "pkh(A)"], [None, None], T1, T1),
+        (["tr(A)", "wpkh(A)"], [{"h": H1}, None], 5, H1), (["wpkh(A)", "tr(A)"], [{"t": T1}, None], 5, T1),
+        (["pkh(A)", "wpkh(A)", "tr(A)"], [{"h": H1}, {"h": H2}, None], 0, H2),
+        (["wsh(multi(K,N))", "wpkh(A)"], [{"t": T2}, {"t": T1}], H1, T2),
+        (["wpkh(A)", "tr(A)"], [{"h": H1, "t": T1}, {"t": T2}], 0, T2),
+        (["wpkh(A)", "tr(A)"], [{"h": H1, "t": T1}, {"h": H2}], 0, H2),
+        (["wpkh(A)", "sh(wpkh(A))"], [{"h": H1, "t": T1}, {"h": H2, "t": T2}], 9, H2),
+        ([f"wsh(and_v(v:pk(A),after({H1})))", "wpkh(A)"], [{"h": H2}, None], 0, H2),
+        ([f"tr(NUMS,and_v(v:pk(A),after({T1})))", "tr(A)"], [{"t": T1}, {"t": T2}], 0, T2),
+        ([f"wsh(and_v(v:pk(A),after({T1})))"], [{"t": T2}], H1, T2),
+        ([f"tr(NUMS,and_v(v:pk(A),after({H1})))"], [None], H2, H2),
+    ]:
+        lock_specs.append({"seed": rng.getrandbits(48), "shapes": shapes, "hts": [None] * len(shapes), "v2": True,
+                           "builder": False, "request": rng.random() < 0.3, "locks": locks, "fallback": fallback,
+                           "expect_lock": expect, "version": 2,
+                           "seqs": [rng.choice([0xFFFFFFFE, 0xFFFFFFFD, 0]) for _ in shapes]})
+    for spec in lock_specs:
+        ctx.check("locktime", spec, key="locktime." + ("required" if any(spec["locks"]) else "fallback"))
+        ctx.count("locktime", "+".join(sorted("".join(sorted(l)) if l else "-" for l in spec["locks"])))
+    # miniscript time locks: a witness exactly when the engine accepts
+    tl_cases = []
+    tl_specs = []
+    for wrap in ("wsh(%s)", "tr(NUMS,%s)"):
+        for n_after in (500, 500_000_100):
+            below, above = (n_after - 1, n_after + 7)
+            other = 500_000_200 if n_after < 500_000_000 else 600
+            for lock in (0, below, n_after, above, other):
+                for seq in (0, 1, 0xFFFFFFFE, 0xFFFFFFFF):
+                    tl_specs.append((wrap % f"and_v(v:pk(A),after({n_after}))", lock, seq, rng.choice([1, 2])))
+        for m_older in (5, 0x400005):
+            for seq in (0, 1, 4, 5, 6, 0x400005, 0x400004, 0x80000005, 0xFFFFFFFE, 0xFFFFFFFF):
+                for version in (1, 2):
+                    tl_specs.append((wrap % f"and_v(v:pk(A),older({m_older}))", rng.choice([0, 600]), seq, version))
+    if ctx.tier != "thorough":
+        keep = [t for t in tl_specs if t[2] in (0xFFFFFFFF, 0xFFFFFFFE) and "after(" in t[0]]
+        rest = [t for t in tl_specs if t not in keep]
+        rng.shuffle(rest)
+        tl_specs = keep + rest[:ctx.n(40)]
+    for shape, lock, seq, version in tl_specs:
+        w = {"seed": rng.getrandbits(48), "shapes": [shape], "hts": [None], "v2": rng.random() < 0.5, "builder": False,
+             "request": False, "lock": lock, "seqs": [seq], "version": version}
+        ok = ctx.check("timelock", w, key="timelock." + ("after" if "after(" in shape else "older"))
+        try:
+            produced, _why, verdict, line, _own = timelock_probe(w)
+            tl_cases.append((line, verdict))
+            ctx.count("timelock", ("witness" if produced else "refused") + ":" + verdict)
+        except Exception:  # noqa: BLE001 - already reported by the oracle
+            pass
+    ctx.correspond("c10.timelock.verdict", EXE, tl_cases, nontrivial=lambda ln, out: True)
     # message signatures
     for _ in range(ctx.n(12, 200)):
         w = {"q": rng.randrange(1, 2**255), "q2": rng.randrange(1, 2**255),
